@@ -477,7 +477,7 @@ Print Assumptions C17_check_ok_sound.
    of THE ascending list of ALL integer multiples of the spacing inside the domain widened by 1e-10 of its
    width (lin_level_list) at the LOWEST level of the window with at most Max such multiples, minor the
    same one level below, and no ticks exactly when no level of the window fits.  lin_level_spec - with c
-   the length of that list: CountTicks(l) = c up to 10^6 ticks (within 2 + 1e-9 c of min(c, maxInt) beyond:
+   the length of that list: CountTicks(l) = c up to 1000 ticks (within 2 + 1e-9 c of min(c, maxInt) beyond:
    the count is formed in float64), and TicksAtLevel(l) has status 0 and exactly c ticks, each within
    tolerance of the list (or status 3 = not called by the harness, no ticks: only where c > 1000).
    lin_nice_spec - the observed new ends are finite and within tolerance of x, y with: x <= smn, smx <= y
@@ -572,8 +572,8 @@ Theorem C17_check_meaning_scales :
   (forall (tolv : Q -> Q) (base eb : Z) (mn mx : Q) (lv : levobs), lin_level_spec tolv base eb mn mx lv <->
    (exists L, lin_level_list base eb mn mx (lv_level lv) L /\
     let c := Z.of_nat (length L) in
-    ((c <= 1000000)%Z -> lv_count lv = c) /\
-    ((1000000 < c)%Z -> (Z.abs (lv_count lv - Z.min c MAXINT) <= 2 + c / 1000000000)%Z) /\
+    ((c <= 1000)%Z -> lv_count lv = c) /\
+    ((1000 < c)%Z -> (Z.abs (lv_count lv - Z.min c MAXINT) <= 2 + c / 1000000000)%Z) /\
     ((lv_st lv = 0%Z /\ obs_close tolv L (lv_ticks lv) /\ Z.of_nat (length (lv_ticks lv)) = c)
     \/ (lv_st lv = 3%Z /\ (1000 < c)%Z /\ lv_ticks lv = [])))%Q) /\
   (forall (tolv : Q -> Q) (base eb : Z) (o : tickopts) (mn mx : Q) (st : Z) (a b : xreal), lin_nice_spec tolv base eb o mn mx st a b <->
